@@ -20,7 +20,7 @@ sys.path.insert(0, HERE)
 try:
     from vlib import REPO, LEAN
 except Exception:                      # stand-alone use
-    REPO, LEAN = "/repo", os.path.join(os.path.dirname(HERE), "lean")
+    REPO, LEAN = os.environ.get("VERIF_REPO", "/repo"), os.path.join(os.path.dirname(HERE), "lean")
 
 # dependency order matters (a type must be declared before it is wrapped)
 CRATES = [("jxl-bitstream", "jxl_bitstream", "BitstreamError"),
